@@ -34,6 +34,8 @@ type boolFrame struct {
 	subst  map[ssa.Value]ssa.Value // helper frame: parameter -> the caller's value
 	ituple map[*ssa.Call][]int64   // integer results of module helpers that returned constants
 	phiSel map[ssa.Value]ssa.Value // the edge each non-boolean phi took on the path walked
+	parent *boolFrame              // the frame of the caller, for helper and closure frames
+	cells  map[ssa.Value]ssa.Value // local variables kept in memory (captured by a closure): last value stored on the path walked
 	prev   *ssa.BasicBlock
 }
 
@@ -235,7 +237,8 @@ func (bi *boolInterp) run(fr *boolFrame, b *ssa.BasicBlock, stop map[*ssa.BasicB
 				if !allInt {
 					break
 				}
-				sub := &boolFrame{fn: callee, roles: map[ssa.Value]string{}, env: map[ssa.Value]bool{}, subst: map[ssa.Value]ssa.Value{}}
+				sub := &boolFrame{fn: callee, roles: map[ssa.Value]string{}, env: map[ssa.Value]bool{}, subst: map[ssa.Value]ssa.Value{}, parent: fr}
+				bindClosure(sub, x.Call.Value, callee)
 				for i, a := range x.Call.Args {
 					if i < len(callee.Params) {
 						sub.subst[callee.Params[i]] = fr.callerValue(resolveValue(a))
@@ -277,6 +280,13 @@ func (bi *boolInterp) run(fr *boolFrame, b *ssa.BasicBlock, stop map[*ssa.BasicB
 					if vals, ok := fr.ituple[call]; ok && x.Index < len(vals) {
 						fr.ienv[x] = vals[x.Index]
 					}
+				}
+			case *ssa.Store:
+				if a, ok := x.Addr.(*ssa.Alloc); ok {
+					if fr.cells == nil {
+						fr.cells = map[ssa.Value]ssa.Value{}
+					}
+					fr.cells[a] = x.Val
 				}
 			case *ssa.Panic:
 				return boolOutcome{kind: "noreturn"}, nil
@@ -331,7 +341,8 @@ func (bi *boolInterp) eval(fr *boolFrame, v ssa.Value, depth int) (bool, error) 
 	case *ssa.Call:
 		// a boolean module helper: evaluated in its own frame, parameters take the roles of the arguments
 		if callee := x.Call.StaticCallee(); callee != nil && len(callee.Blocks) > 0 && core.IsModPath(core.FuncPkgPath(callee)) && isBoolType(x.Type()) {
-			sub := &boolFrame{fn: callee, roles: map[ssa.Value]string{}, env: map[ssa.Value]bool{}, subst: map[ssa.Value]ssa.Value{}}
+			sub := &boolFrame{fn: callee, roles: map[ssa.Value]string{}, env: map[ssa.Value]bool{}, subst: map[ssa.Value]ssa.Value{}, parent: fr}
+			bindClosure(sub, x.Call.Value, callee)
 			for i, a := range x.Call.Args {
 				if i < len(callee.Params) {
 					sub.subst[callee.Params[i]] = fr.callerValue(resolveValue(a))
@@ -384,4 +395,190 @@ func (bi *boolInterp) runFrom(fr *boolFrame, after ssa.Instruction, stop map[*ss
 		return boolOutcome{kind: "return", ret: x}, nil
 	}
 	return boolOutcome{kind: "noreturn"}, nil
+}
+
+// bindClosure: a call of a local closure: the closure's free variables stand for the variables bound at its creation.
+func bindClosure(sub *boolFrame, callee ssa.Value, fn *ssa.Function) {
+	mc, ok := callee.(*ssa.MakeClosure)
+	if !ok {
+		return
+	}
+	for j, b := range mc.Bindings {
+		if j < len(fn.FreeVars) {
+			sub.subst[fn.FreeVars[j]] = b
+		}
+	}
+}
+
+// onceStoredC is onceStored for a variable that closures capture: a capture is tolerated when the closure only
+// reads the variable.
+func onceStoredC(a *ssa.Alloc) ssa.Value {
+	var val ssa.Value
+	n := 0
+	var okRead func(x ssa.Value) bool
+	okRead = func(x ssa.Value) bool {
+		for _, r := range *x.Referrers() {
+			switch y := r.(type) {
+			case *ssa.UnOp:
+				if y.Op != token.MUL {
+					return false
+				}
+			case *ssa.FieldAddr:
+				if !okRead(y) {
+					return false
+				}
+			case *ssa.IndexAddr:
+				if !okRead(y) {
+					return false
+				}
+			case *ssa.DebugRef:
+			default:
+				return false
+			}
+		}
+		return true
+	}
+	for _, r := range *a.Referrers() {
+		switch y := r.(type) {
+		case *ssa.Store:
+			if y.Addr != ssa.Value(a) {
+				return nil
+			}
+			val = y.Val
+			n++
+		case *ssa.UnOp:
+			if y.Op != token.MUL {
+				return nil
+			}
+		case *ssa.FieldAddr:
+			if !okRead(y) {
+				return nil
+			}
+		case *ssa.IndexAddr:
+			if !okRead(y) {
+				return nil
+			}
+		case *ssa.MakeClosure:
+			fn, _ := y.Fn.(*ssa.Function)
+			for j, b := range y.Bindings {
+				if b == ssa.Value(a) && (fn == nil || j >= len(fn.FreeVars) || !okRead(fn.FreeVars[j])) {
+					return nil
+				}
+			}
+		case *ssa.DebugRef:
+		default:
+			return nil
+		}
+	}
+	if n != 1 {
+		return nil
+	}
+	return val
+}
+
+// accessPath resolves a value to (root, constant index path): line[0][1] -> (line, [0 1]), through local copies,
+// helper and closure parameters, and variables captured by a closure.  Indices may be constants or integer
+// selectors whose value on the path walked is known (ienv).
+func accessPath(fr *boolFrame, v ssa.Value, depth int) (ssa.Value, []int64, bool) {
+	if depth > 24 || fr == nil {
+		return nil, nil, false
+	}
+	switch x := v.(type) {
+	case *ssa.ChangeType:
+		return accessPath(fr, x.X, depth+1)
+	case *ssa.Index:
+		r, p, ok := accessPath(fr, x.X, depth+1)
+		k, ok2 := intOnPath(fr, x.Index, depth+1)
+		return r, append(append([]int64{}, p...), k), ok && ok2
+	case *ssa.UnOp:
+		if x.Op == token.MUL {
+			return accessPathAddr(fr, x.X, depth+1)
+		}
+	case *ssa.Parameter:
+		if m, has := fr.subst[x]; has && fr.parent != nil {
+			return accessPath(fr.parent, m, depth+1)
+		}
+	}
+	return v, nil, true
+}
+
+func accessPathAddr(fr *boolFrame, a ssa.Value, depth int) (ssa.Value, []int64, bool) {
+	if depth > 24 || fr == nil {
+		return nil, nil, false
+	}
+	switch x := a.(type) {
+	case *ssa.IndexAddr:
+		var r ssa.Value
+		var p []int64
+		var ok bool
+		if _, isPtr := x.X.Type().Underlying().(*types.Pointer); isPtr {
+			r, p, ok = accessPathAddr(fr, x.X, depth+1)
+		} else {
+			r, p, ok = accessPath(fr, x.X, depth+1) // a slice value
+		}
+		k, ok2 := intOnPath(fr, x.Index, depth+1)
+		return r, append(append([]int64{}, p...), k), ok && ok2
+	case *ssa.Alloc:
+		if cv, ok := fr.cells[x]; ok {
+			return accessPath(fr, cv, depth+1)
+		}
+		s := onceStoredC(x)
+		if s == nil {
+			return nil, nil, false
+		}
+		return accessPath(fr, s, depth+1)
+	case *ssa.FreeVar:
+		if m, has := fr.subst[x]; has && fr.parent != nil {
+			return accessPathAddr(fr.parent, m, depth+1)
+		}
+	}
+	return nil, nil, false
+}
+
+// intOnPath: the integer value of v on the path walked: a constant, a selector recorded in ienv, possibly read
+// through a local or captured variable.
+func intOnPath(fr *boolFrame, v ssa.Value, depth int) (int64, bool) {
+	if depth > 24 || fr == nil {
+		return 0, false
+	}
+	if k, ok := v.(*ssa.Const); ok && k.Value != nil && k.Value.Kind() == constant.Int {
+		return k.Int64(), true
+	}
+	if val, ok := fr.ienv[v]; ok {
+		return val, true
+	}
+	switch x := v.(type) {
+	case *ssa.ChangeType:
+		return intOnPath(fr, x.X, depth+1)
+	case *ssa.Convert:
+		return intOnPath(fr, x.X, depth+1)
+	case *ssa.UnOp:
+		if x.Op == token.MUL {
+			switch a := x.X.(type) {
+			case *ssa.Alloc:
+				if cv, ok := fr.cells[a]; ok {
+					return intOnPath(fr, cv, depth+1)
+				}
+				if s := onceStoredC(a); s != nil {
+					return intOnPath(fr, s, depth+1)
+				}
+			case *ssa.FreeVar:
+				if m, has := fr.subst[a]; has && fr.parent != nil {
+					if al, isAlloc := m.(*ssa.Alloc); isAlloc {
+						if cv, ok := fr.parent.cells[al]; ok {
+							return intOnPath(fr.parent, cv, depth+1)
+						}
+						if s := onceStoredC(al); s != nil {
+							return intOnPath(fr.parent, s, depth+1)
+						}
+					}
+				}
+			}
+		}
+	case *ssa.Parameter:
+		if m, has := fr.subst[x]; has && fr.parent != nil {
+			return intOnPath(fr.parent, m, depth+1)
+		}
+	}
+	return 0, false
 }
